@@ -34,90 +34,88 @@ theorem leb_u_decode :
 theorem leb_s_decode_32 (v : Int) (bs rest : List UInt8) (h : SLeb 32 v bs) :
     readI32 (bs ++ rest) = { value := v, count := bs.length, rest := rest, ub := false } := by
   have := readS_sleb wf_i32 h rest
-  have hne : ¬ (v < 0 ∧ 7 * bs.length + 1 = leb128ReadI32.width) := by
+  have hne : ¬ (leb128ReadI32.signExtForm ≠ "unsignedMask" ∧ v < 0 ∧ 7 * bs.length + 1 = leb128ReadI32.width) := by
     have : leb128ReadI32.width = 32 := rfl
     omega
   simpa [hne, readI32] using this
 
-/-- **leb_s_decode**, N = 64: value and byte count are right for every `s64` encoding (10th byte: sign in
-    bit 0, copies in bits 1–6), under the two's-complement reading of `-((I64)1 << shift)` that gcc and clang
-    implement.  The `ub` flag says when that expression is undefined in C: exactly for the 9-byte encodings
-    of negative values (`shift = 63`). -/
+/-- **leb_s_decode**, N = 64: every `s64` encoding (10th byte: sign in bit 0, copies in bits 1–6; 9-byte
+    encodings, whose sign extension shifts by 63) is decoded to `v`, exactly consumed, and — with the
+    sign-extension expression of the current source, `(I64)(~(U64)0 << shift)` — without undefined behaviour. -/
 theorem leb_s_decode_64 (v : Int) (bs rest : List UInt8) (h : SLeb 64 v bs) :
-    readI64 (bs ++ rest) = { value := v, count := bs.length, rest := rest, ub := decide (v < 0 ∧ bs.length = 9) } := by
+    readI64 (bs ++ rest) = { value := v, count := bs.length, rest := rest, ub := false } := by
   have := readS_sleb wf_i64 h rest
-  have hiff : (v < 0 ∧ 7 * bs.length + 1 = leb128ReadI64.width) ↔ (v < 0 ∧ bs.length = 9) := by
-    have : leb128ReadI64.width = 64 := rfl
-    constructor <;> rintro ⟨a, b⟩ <;> constructor <;> omega
-  simpa [hiff, readI64] using this
+  have hform : leb128ReadI64.signExtForm = "unsignedMask" := by decide
+  have hne : ¬ (leb128ReadI64.signExtForm ≠ "unsignedMask" ∧ v < 0 ∧ 7 * bs.length + 1 = leb128ReadI64.width) := by
+    intro hc; exact hc.1 hform
+  simpa [hne, readI64] using this
 
-/-- `leb_s_decode` for both widths, on the encodings for which the C code is defined. -/
+/-- **leb_s_decode** for both widths, full strength. -/
 theorem leb_s_decode :
     (∀ (v : Int) (bs rest : List UInt8), SLeb 32 v bs →
       readI32 (bs ++ rest) = { value := v, count := bs.length, rest := rest, ub := false }) ∧
-    (∀ (v : Int) (bs rest : List UInt8), SLeb 64 v bs → ¬ (v < 0 ∧ bs.length = 9) →
-      readI64 (bs ++ rest) = { value := v, count := bs.length, rest := rest, ub := false }) := by
-  refine ⟨leb_s_decode_32, fun v bs rest h hne => ?_⟩
-  rw [leb_s_decode_64 v bs rest h]; simp [hne]
+    (∀ (v : Int) (bs rest : List UInt8), SLeb 64 v bs →
+      readI64 (bs ++ rest) = { value := v, count := bs.length, rest := rest, ub := false }) :=
+  ⟨leb_s_decode_32, leb_s_decode_64⟩
+
+/-- The decoder as it was before /repo 415f201 (`value |= -((I64) 1 << shift)`). -/
+def leb128ReadI64_before_415f201 : LebDecoder := { leb128ReadI64 with signExtForm := "negOneShifted" }
 
 set_option maxRecDepth 100000 in
-/-- The pinned `leb128ReadI64` is undefined (signed overflow in `-((I64) 1 << 63)`) on a VALID encoding:
-    `-1` written in 9 bytes, e.g. as the immediate of `i64.const`.  (Every negative `i64` in
-    `[-2^62, -2^55)` needs 9 bytes even in its shortest encoding.) -/
-theorem leb_s64_ub_counterexample :
+/-- Regression witness: with the former sign-extension expression `-((I64) 1 << shift)` the decoder was
+    undefined (signed overflow, `shift = 63`) on a VALID encoding: `-1` written in 9 bytes, e.g. as the
+    immediate of `i64.const` (every negative `i64` in `[-2^62, -2^55)` needs 9 bytes even in its shortest
+    encoding).  If that expression comes back, `Gen.Reader.leb128ReadI64` becomes this row again and
+    `leb_s_decode_64` / `leb_total` no longer check. -/
+theorem leb_s64_old_form_ub_regression :
     SLeb 64 (-1) [0xFF, 0xFF, 0xFF, 0xFF, 0xFF, 0xFF, 0xFF, 0xFF, 0x7F] ∧
-    (readI64 [0xFF, 0xFF, 0xFF, 0xFF, 0xFF, 0xFF, 0xFF, 0xFF, 0x7F]).ub = true := by
-  constructor
-  · have h9 : SLeb 8 (-1) [0x7F] := SLeb.neg (N := 8) 0x7F (by decide) (by decide) (by decide) (by decide)
-    have step : ∀ {N : Nat} {bs : List UInt8}, 7 < N → SLeb (N - 7) (-1) bs → SLeb N (-1) (0xFF :: bs) :=
-      fun hN ht => SLeb.more (m := -1) 0xFF (by decide) hN ht
-    exact step (by decide) (step (by decide) (step (by decide) (step (by decide) (step (by decide)
-      (step (by decide) (step (by decide) (step (by decide) h9)))))))
-  · decide
+    (readS leb128ReadI64_before_415f201 [0xFF, 0xFF, 0xFF, 0xFF, 0xFF, 0xFF, 0xFF, 0xFF, 0x7F]).ub = true ∧
+    (readS leb128ReadI64_before_415f201 [0xFF, 0xFF, 0xFF, 0xFF, 0xFF, 0xFF, 0xFF, 0xFF, 0x7F]).value = -1 := by
+  refine ⟨?_, by decide, by decide⟩
+  have h9 : SLeb 8 (-1) [0x7F] := SLeb.neg (N := 8) 0x7F (by decide) (by decide) (by decide) (by decide)
+  have step : ∀ {N : Nat} {bs : List UInt8}, 7 < N → SLeb (N - 7) (-1) bs → SLeb N (-1) (0xFF :: bs) :=
+    fun hN ht => SLeb.more (m := -1) 0xFF (by decide) hN ht
+  exact step (by decide) (step (by decide) (step (by decide) (step (by decide) (step (by decide)
+    (step (by decide) (step (by decide) (step (by decide) h9)))))))
 
 /-- **leb_total**: on ANY buffer each decoder reads at most `max` bytes and never more than the buffer
     holds, returns exactly the unread suffix, produces a `width`-bit pattern, returns 0 iff the buffer was
-    empty, and its only undefined operation is the 9-byte sign extension of `leb128ReadI64`. -/
+    empty, and performs no undefined shift or negation. -/
 theorem leb_total (d : LebDecoder) (hd : d ∈ [leb128ReadU32, leb128ReadI32, leb128ReadU64, leb128ReadI64])
     (bs : List UInt8) :
     (run d bs).1.count ≤ d.maxBytes ∧ (run d bs).1.count ≤ bs.length ∧
     (run d bs).2 = bs.drop (run d bs).1.count ∧ (run d bs).1.value < 2 ^ d.width ∧
     ((run d bs).1.count = 0 ↔ bs = []) ∧
-    ((run d bs).1.ub = true → d = leb128ReadI64 ∧ (run d bs).1.count = 9) := by
-  have hwf : WF d ∧ 7 * d.maxBytes < d.width + 7 ∧ 0 < d.maxBytes := by
+    (run d bs).1.ub = false := by
+  have hwf : WF d ∧ 7 * d.maxBytes < d.width + 7 ∧ 0 < d.maxBytes ∧ d.guardBits ≤ d.width := by
     simp only [List.mem_cons, List.mem_nil_iff, or_false] at hd
     rcases hd with rfl | rfl | rfl | rfl
-    · exact ⟨wf_u32, by decide, by decide⟩
-    · exact ⟨wf_i32.toWF, by decide, by decide⟩
-    · exact ⟨wf_u64, by decide, by decide⟩
-    · exact ⟨wf_i64.toWF, by decide, by decide⟩
-  obtain ⟨hwf, hm, hpos⟩ := hwf
+    · exact ⟨wf_u32, by decide, by decide, by decide⟩
+    · exact ⟨wf_i32.toWF, by decide, by decide, by decide⟩
+    · exact ⟨wf_u64, by decide, by decide, by decide⟩
+    · exact ⟨wf_i64.toWF, by decide, by decide, by decide⟩
+  obtain ⟨hwf, hm, hpos, hg⟩ := hwf
   obtain ⟨t1, t2, t3, t4, t5⟩ := run_total hwf bs
   refine ⟨t1, t2, t3, t4, t5 hpos, ?_⟩
   have hl := run_loop_ub hwf hm bs
   obtain ⟨_, _, _, _, l5, _, _, _⟩ := loop_total hwf d.maxBytes bs St.init
-  have hc : (run d bs).1.count = (loop d d.maxBytes bs St.init).1.count := (signExtend_fields d _).1
-  intro hub
-  simp only [run, signExtend] at hub
-  split at hub
-  · rename_i hcond
-    obtain ⟨hsg, hlt, _⟩ := hcond
-    simp only [hl, Bool.false_or, decide_eq_true_eq] at hub
-    have hs0 : St.init.shift = 0 := rfl
-    have hc0 : St.init.count = 0 := rfl
-    rw [hs0, hc0] at l5
-    simp only [List.mem_cons, List.mem_nil_iff, or_false] at hd
-    rcases hd with rfl | rfl | rfl | rfl
-    · exact absurd hsg (by decide)
-    · have : leb128ReadI32.width = 32 := rfl
-      have : leb128ReadI32.guardBits = 32 := rfl
-      omega
-    · exact absurd hsg (by decide)
-    · have : leb128ReadI64.width = 64 := rfl
-      have : leb128ReadI64.guardBits = 64 := rfl
-      refine ⟨rfl, ?_⟩
-      rw [hc]; omega
-  · rw [hl] at hub; exact absurd hub (by decide)
+  have hs0 : St.init.shift = 0 := rfl
+  have hc0 : St.init.count = 0 := rfl
+  rw [hs0, hc0] at l5
+  cases hub : (run d bs).1.ub with
+  | false => rfl
+  | true =>
+    exfalso
+    rcases signExtend_ub d _ hg hub with h | ⟨hf, hsg, hlt, hw⟩
+    · rw [hl] at h; exact absurd h (by decide)
+    · simp only [List.mem_cons, List.mem_nil_iff, or_false] at hd
+      rcases hd with rfl | rfl | rfl | rfl
+      · exact absurd hsg (by decide)
+      · have : leb128ReadI32.width = 32 := rfl
+        have : leb128ReadI32.guardBits = 32 := rfl
+        omega
+      · exact absurd hsg (by decide)
+      · exact hf (by decide)
 
 /-! Non-vacuity: concrete encodings with redundant padding satisfy the hypotheses. -/
 set_option maxRecDepth 100000 in
